@@ -21,14 +21,14 @@ CLAIM = dict(
           "bounds) equals the ideal mathematical result whenever the result fits that kind, hence any two kinds that fit agree "
           "(failure included); instantiated for compute_strides / product / compute_offset / compute_indices (with the no-wrap guard of "
           "C01) and broadcast_shape; the compile-time branch applies the same function to the constants' values. The substance is the "
-          "correspondence: GENERATED drivers call 17 index functions of the real library once per container kind (std::vector of size_t "
+          "correspondence: GENERATED drivers call 18 index functions of the real library once per container kind (std::vector of size_t "
           "and int, std::array, utl::static_vector, utl::vector, run-time tuple, raw C array, tuple of compile-time constants, tuple of "
           "clipped integers, constexpr evaluation with constant and std::array arguments, and mixed pairs) on seeded valid argument "
           "values; every kind must report the same success flag and values as the extracted model (or the std::vector reference)."),
     ref="5.9", technique="Coq proof (fit guard) + generated-driver differential correspondence across container kinds",
     extra="Partial by nature: which `if constexpr` arm a container type selects is observed per instantiation, not proved; "
           "compilers other than g++ 12 and the NMTOOLS_DISABLE_STL configuration are not part of the quick tier.")
-RULE = ("per tier a seeded set of argument values per function (quick 6, thorough 24 value sets x 17 functions), each instantiated for "
+RULE = ("per tier a seeded set of argument values per function (quick 6, thorough 24 value sets x 18 functions), each instantiated for "
         "every container kind the function accepts (rows rejected at compile time are reported as compile-rejected and not counted); "
         "non-trivial = list argument of length >= 2; distinct = distinct (function, values) case")
 THEOREM_STATUS = {"proved": ["C09_fit_implies_ideal", "C09_kinds_agree", "C09_index_functions_kind_independent",
@@ -76,6 +76,18 @@ def _values(fn, rng):
             if all(m) or not any(m): m[0] = not m[0]
             return [[1 if k else e for e, k in zip(t, m)], [e if k else 1 for e, k in zip(t, m)]]
         return [stretch(), stretch()]
+    if fn == "bto":
+        t = _shape(rng, rng.randint(1, 4), 1, 6)
+        src = [1 if rng.random() < 0.4 else e for e in t][rng.randint(0, len(t) - 1):]
+        r = rng.random()
+        if r < 0.45:                                   # INVALID requests (every kind must reject)
+            k = rng.randrange(len(src)); tk = t[len(t) - len(src) + k]; m = rng.choice(["above", "above", "below", "to1", "rank"])
+            if m == "above": src[k] = tk + rng.randint(1, 2)          # source extent larger than the target extent
+            elif m == "below" and tk > 2: src[k] = tk - 1
+            elif m == "to1" and tk == 1: src[k] = rng.randint(2, 3)   # source extent > 1 onto a target extent 1
+            elif m == "rank": src = [2] + t                            # source rank above the target rank
+            else: src[k] = tk + 1
+        return [src, t]
     if fn == "transpose":
         s = _shape(rng, rng.randint(2, 4)); p = list(range(len(s))); rng.shuffle(p)
         if len(s) >= 3 and rng.random() < 0.6:      # a permutation that is not its own inverse, distinct extents
@@ -128,11 +140,11 @@ def _values(fn, rng):
     raise KeyError(fn)
 
 
-FUNCS = ["strides", "product", "reverse", "transpose_none", "indices", "offset", "bshape", "transpose", "reshape",
+FUNCS = ["strides", "product", "reverse", "transpose_none", "indices", "offset", "bshape", "bto", "transpose", "reshape",
          "remove_dims", "tile", "normalize_axis", "normalize_axes", "expand_dims", "repeat", "pad", "concat"]
 CALL = {"strides": "ix::compute_strides({0})", "product": "ix::product({0})", "reverse": "ix::reverse({0})",
         "transpose_none": "ix::shape_transpose({0}, nm::None)", "indices": "ix::compute_indices({0}, {1})",
-        "offset": "ix::compute_offset({0}, {1})", "bshape": "ix::broadcast_shape({0}, {1})",
+        "offset": "ix::compute_offset({0}, {1})", "bshape": "ix::broadcast_shape({0}, {1})", "bto": "bto_s({0}, {1})",
         "transpose": "ix::shape_transpose({0}, {1})", "reshape": "ix::shape_reshape({0}, {1})",
         "remove_dims": "ix::remove_dims({0}, {1}, {2})", "tile": "ix::shape_tile({0}, {1})",
         "normalize_axis": "ix::normalize_axis({0}, {1})", "normalize_axes": "ix::normalize_axis({0}, {1})",
@@ -211,6 +223,7 @@ PRELUDE = r'''// GENERATED by harness/props/c09.py — do not edit
 #include "nmtools/array/index/compute_indices.hpp"
 #include "nmtools/array/index/product.hpp"
 #include "nmtools/array/index/broadcast_shape.hpp"
+#include "nmtools/array/index/broadcast_to.hpp"
 #include "nmtools/array/index/transpose.hpp"
 #include "nmtools/array/index/reshape.hpp"
 #include "nmtools/array/index/remove_dims.hpp"
@@ -229,11 +242,18 @@ namespace ix = nmtools::index; using namespace vd; using namespace nm::literals;
 template <typename R> static std::string sh(const R& r) {
   if constexpr (meta::is_fail_v<R>) return "unsupported";
   else if constexpr (meta::is_maybe_v<R>) { if (!nm::has_value(r)) return "nothing"; return sh(*r); }
+  else if constexpr (std::is_same_v<R, std::string>) return r;
   else if constexpr (std::is_same_v<R, bool>) return r ? "1" : "0";
   else if constexpr (meta::is_tuple_v<R> && !meta::is_index_array_v<R>) {
     std::string s; meta::template_for<meta::len_v<R>>([&](auto i){ if (!s.empty()) s += "/"; s += sh(nm::at(r,i)); }); return s; }
   else return show_index(r);
 }
+// index::shape_broadcast_to(source shape, target shape): the accepted shape, "nothing" when rejected
+template <typename A, typename B> static std::string bto_s(const A& a, const B& b) {
+  auto r = ix::shape_broadcast_to(a, b); using R = decltype(r);
+  if constexpr (meta::is_fail_v<R>) return "unsupported";
+  else { if constexpr (meta::is_maybe_v<R>) { if (!nm::has_value(r)) return "nothing"; }
+         const auto& [shp, free] = nm::unwrap(r); (void)free; return show_index(shp); } }
 #define ROW(name, expr) try { s += std::string(name) + "=" + sh(expr) + ";"; } catch (std::exception& e_) { s += std::string(name) + "=trap-exception;"; }
 template <typename T> static nm::utl::static_vector<T,8> SV(std::initializer_list<T> l){ nm::utl::static_vector<T,8> a; a.resize(l.size()); size_t i=0; for (auto x: l) a[i++]=x; return a; }
 template <typename T, size_t N> static nm::utl::static_vector<T,N> SVN(std::initializer_list<T> l){ nm::utl::static_vector<T,N> a; a.resize(l.size()); size_t i=0; for (auto x: l) a[i++]=x; return a; }
@@ -248,7 +268,7 @@ def _generate(seed, tier):
     nsets = 6 if tier == "quick" else 24
     cases = []      # (fn, vals, rows)
     for fn in FUNCS:
-        for _ in range(nsets * (3 if fn == "reshape" else 2 if fn in ("bshape", "transpose") else 1)):
+        for _ in range(nsets * (3 if fn == "reshape" else 2 if fn in ("bshape", "bto", "transpose") else 1)):
             vals = _values(fn, rng)
             cases.append((fn, vals, _rows(fn, vals, rng)))
     return cases
